@@ -1,9 +1,9 @@
 SPECIFICATION MCSpec
 CONSTANTS
-  MaxV = 3
-  MaxE = 3
+  MaxV = 4
+  MaxE = 4
   CBits = {0}
-  Part = 4
+  Part = 1
   Export = TRUE
-INVARIANTS Emit
+INVARIANTS EmitShort
 CHECK_DEADLOCK FALSE
